@@ -19,6 +19,7 @@ def sh(cmd, cwd=None, timeout=1800):
 def demo_cmds(wt):
     """derive (copy commands, test command) from how_to_run, re-targeted at worktree wt"""
     h = how.replace(seed_wt + ".out", "@@OUT@@").replace(seed_wt, wt).replace("@@OUT@@", seed_wt + ".out")
+    h = re.sub(r"\s#.*", "", h)   # drop trailing shell comments
     cps = re.findall(r"cp\s+\S+\s+\S+", h)
     tests = re.findall(r"(?:timeout\s+\d+\s+)?go\s+(?:test|run)\s+[^;&#\n]*", h)
     extra = re.findall(r"(?:(?:bash|sh)\s+)?/\S+\.sh[^;&#\n]*", h)
